@@ -66,7 +66,9 @@ fn lex_(mut input: &str, mut start_of_line: bool) -> impl Iterator<Item = (Synta
                         Some((SyntaxKind::WHITESPACE, whitespace))
                     }
                 }
-                '#' if start_of_line => {
+                // (only a '#' in the first column starts a comment: an indented
+                // line is a continuation line, whatever it starts with)
+                '#' if start_of_line && indent == 0 => {
                     let (comment, remaining) =
                         input.split_at(input.find(common::is_newline).unwrap_or(input.len()));
                     input = remaining;
